@@ -17,6 +17,7 @@
 //!   ops:      on off pas | per:<lo>:<hi> (poll period in 1/32 slot times) | run:<n> | skip:<k> |
 //!             inj:<hex> (bytes appear at once) | injt:<hex> (bytes arrive at line speed) |
 //!             start:<addr> (give the token to an environment master) | kill:<addr> | rev:<addr> |
+//!             cut:<addr>:<n> (that master's next token telegram breaks off after n bytes, then it is dead) |
 //!             busy:<mode>[:<bits>] (what poll_transmission answers: 0 exact, 1 never, 2 late by <bits> - the
 //!             transmission really lasts that much longer, peers react to its real end -, 3 random, 4 exact inclusive)
 //!
@@ -236,6 +237,8 @@ struct Env {
     rng: Rng,
     /// the station's transmissions really last this much longer than 11 bit per byte (busy mode 2)
     tx_extra_bits: u64,
+    /// (peer, n): this peer's next token telegram breaks off after n bytes and the peer is dead
+    cut: Option<(u8, usize)>,
 }
 
 fn build<F: FnOnce(TelegramTx) -> TelegramTxResponse>(f: F) -> Vec<u8> {
@@ -268,6 +271,14 @@ impl Env {
     }
     fn pass_token(&mut self, m: usize, t: i64) {
         let (sa, da) = (self.peers[m].addr, self.peers[m].next);
+        if let Some((who, n)) = self.cut {
+            if who == sa {
+                self.cut = None;
+                self.peers[m].alive = false;
+                self.transmit(t, &[0xDC, da, sa][..n.min(2).max(1)]);
+                return;
+            }
+        }
         let end = self.transmit(t, &[0xDC, da, sa]);
         if da == self.ts {
             let slot = self.bit(self.slot_bits + 60);
@@ -627,9 +638,9 @@ impl Runner {
 }
 
 /// Run one case in a worker thread; if it does not finish within the limit (VERIF_CASE_TIMEOUT_S,
-/// default 20 s) the transcript written so far is returned with a final `TIMEOUT` event.
+/// default 8 s) the transcript written so far is returned with a final `TIMEOUT` event.
 pub fn run_case(line: &str) -> String {
-    let limit: u64 = std::env::var("VERIF_CASE_TIMEOUT_S").ok().and_then(|s| s.parse().ok()).unwrap_or(20);
+    let limit: u64 = std::env::var("VERIF_CASE_TIMEOUT_S").ok().and_then(|s| s.parse().ok()).unwrap_or(8);
     let shared = Arc::new(Mutex::new(String::new()));
     let (tx, rx) = std::sync::mpsc::channel();
     let (l, sh) = (line.to_string(), shared.clone());
@@ -716,6 +727,7 @@ fn run_case_inner(line: &str, shared: Arc<Mutex<String>>) -> String {
             ts: addr,
             rng: Rng::new(seed ^ 0x5555),
             tx_extra_bits: 0,
+            cut: None,
         },
         now: t0,
         tx_end: i64::MIN / 2,
@@ -774,6 +786,10 @@ fn run_case_inner(line: &str, shared: Arc<Mutex<String>>) -> String {
                 let a: u8 = f[1].parse().unwrap();
                 let now = r.now;
                 r.env.push(now, Ev::Turn(a));
+                true
+            }
+            "cut" => {
+                r.env.cut = Some((f[1].parse().unwrap(), f[2].parse().unwrap()));
                 true
             }
             "kill" | "rev" => {
@@ -1209,7 +1225,7 @@ impl<'a> Gen<'a> {
         let mut late_master: Option<u8> = None;
         for a in inside.iter() {
             match self.rng.below(6) {
-                0 => write!(env, " p{}:{}:k:11:0:{}:40:0", a, self.rng.pick(&['s', 'n', 'x', 'w', 'y', 'z']), a).unwrap(),
+                0 => write!(env, " p{}:{}:k:11:0:{}:40:0", a, self.rng.pick(&['s', 'n', 'x', 'w', 'y', 'z', 'h', 'h']), a).unwrap(),
                 1 if late_master.is_none() => {
                     late_master = Some(*a);
                     write!(env, " p{}:{}:k:11:1:{}:40:0 kill:{}", a, self.rng.pick(&['r', 'i']), m, a).unwrap();
@@ -1219,6 +1235,9 @@ impl<'a> Gen<'a> {
         }
         let apps = if self.rng.chance(1, 3) { self.apps(&[m]) } else { String::new() };
         write!(env, " on per:8:8 run:{} per:4:8 run:{}", Self::claim_polls(&p) + 40, self.rng.range(700, 1500)).unwrap();
+        if self.rng.chance(1, 4) {
+            write!(env, " cut:{}:{} run:{} rev:{} run:200", m, self.rng.range(1, 2), self.rng.range(300, 500), m).unwrap();
+        }
         if let Some(q) = late_master {
             write!(env, " rev:{} run:{}", q, self.rng.range(600, 1200)).unwrap();
             if self.rng.chance(1, 2) {
@@ -1330,7 +1349,12 @@ impl<'a> Gen<'a> {
         }
         let apps = if self.rng.chance(1, 2) { self.apps(&ms.clone()) } else { String::new() };
         let mut env = format!("{} on start:{} per:3:8 run:{}", peers.join(" "), ms[0], self.rng.range(500, 900));
-        write!(env, " kill:{} run:{}", succ, self.rng.range(150, 400)).unwrap();
+        if self.rng.chance(1, 2) {
+            // the successor dies in the middle of its token telegram
+            write!(env, " cut:{}:{} run:{}", succ, self.rng.range(1, 2), self.rng.range(250, 500)).unwrap();
+        } else {
+            write!(env, " kill:{} run:{}", succ, self.rng.range(150, 400)).unwrap();
+        }
         if self.rng.chance(1, 2) {
             write!(env, " rev:{} run:{}", succ, self.rng.range(300, 700)).unwrap();
         }
